@@ -1056,13 +1056,24 @@ def _alarm(_sig, _frm):
     raise _Timeout("scenario does not terminate (time limit)")
 
 
-def sim_case_real(case, limit_s=10):
+def sim_case_real(case, limit_s=20):
     """(runs in a worker) everything observed on the real simulator for one scenario"""
+    import signal
+    try:
+        return _sim_case_real(case, limit_s)
+    except _Timeout as e:           # a time-out that arrived while the inner handler was already unwinding
+        return {"case": case, "error": ["Timeout", str(e), ""]}
+    finally:
+        signal.setitimer(signal.ITIMER_REAL, 0)
+
+
+def _sim_case_real(case, limit_s):
     import signal
     from amaranth.sim import Period
     out = {"case": case}
     signal.signal(signal.SIGALRM, _alarm)
-    signal.alarm(limit_s)
+    # re-fires every second after the limit: an exception raised inside a `__del__` is swallowed by Python
+    signal.setitimer(signal.ITIMER_REAL, limit_s, 1.0)
     try:
         # fresh simulators: the reference (one run to completion, one stepped with advance())
         simA, trace0 = build_sim(case)
@@ -1119,7 +1130,7 @@ def sim_case_real(case, limit_s=10):
         out["error"] = ["Timeout" if isinstance(e, _Timeout) else common.errkind(e), str(e)[:300],
                         traceback.format_exc()[-1200:]]
     finally:
-        signal.alarm(0)
+        signal.setitimer(signal.ITIMER_REAL, 0)
     return out
 
 
@@ -1212,8 +1223,38 @@ def stream_sim(chk, n_cases):
     rng = chk.rng
     cases = [f21_witness_case()] + [gen_sim_case(rng) for _ in range(n_cases)]
     counts = {}
-    with ProcessPoolExecutor(max_workers=min(16, os.cpu_count() or 4)) as ex:
-        results = list(ex.map(sim_case_real, cases, chunksize=4))
+    def run_pool(todo, limit_s, abort_after):
+        out, n_to = [], 0
+        ex = ProcessPoolExecutor(max_workers=min(16, os.cpu_count() or 4))
+        try:
+            futs = [(c, ex.submit(sim_case_real, c, limit_s)) for c in todo]
+            for c, f in futs:
+                if n_to >= abort_after and not f.running() and f.cancel():
+                    continue                   # enough scenarios hang: do not wait for the rest
+                try:
+                    r = f.result(timeout=limit_s * 6 + 60)
+                except Exception as e:  # noqa: BLE001  (a worker that died or an escaped time-out)
+                    r = {"case": c, "error": ["Timeout" if type(e).__name__ in ("_Timeout", "TimeoutError") else common.errkind(e),
+                                              str(e)[:300], ""]}
+                if "error" in r and r["error"][0] == "Timeout":
+                    n_to += 1
+                out.append(r)
+        finally:
+            ex.shutdown(wait=False, cancel_futures=True)
+        return out, n_to
+
+    results, timeouts = run_pool(cases, 20, 8)
+    if timeouts:
+        # a time-out may be the machine, not the code: two of them are run again alone with a generous limit;
+        # only if one of those completes are the others given the same second chance
+        late = [r["case"] for r in results if "error" in r and r["error"][0] == "Timeout"]
+        again, still = run_pool(late[:2], 120, 2)
+        if still < len(again):
+            rest, _n = run_pool(late[2:], 120, 4)
+            redo = {json.dumps(r["case"], sort_keys=True): r for r in again + rest}
+            results = [redo.get(json.dumps(r["case"], sort_keys=True), r)
+                       if "error" in r and r["error"][0] == "Timeout" else r for r in results]
+            timeouts = sum(1 for r in results if "error" in r and r["error"][0] == "Timeout")
     reqs = [f"(reset {ser_state(r['s1'])})" if "error" not in r else "(reset none)" for r in results]
     resps = chk.driver.ask(reqs)
     for r, resp in zip(results, resps):
@@ -1222,7 +1263,8 @@ def stream_sim(chk, n_cases):
         if v == "ok" and "error" not in r:
             chk.sample({"stream": "sim", "stop": r["stop"], "observations": len(r["trace0"]),
                         "state_before_reset": ser_state(r["s1"])[:300]}, limit=5)
-    chk.extra["sim"] = {"scenarios": len(cases), "verdicts": {str(k): v for k, v in counts.items()}}
+    chk.extra["sim"] = {"scenarios": len(cases), "evaluated": len(results), "timeouts": timeouts,
+                        "verdicts": {str(k): v for k, v in counts.items()}}
     return counts
 
 
@@ -1776,9 +1818,9 @@ def run(chk):
         return
     quick = chk.tier == "quick"
     rng = chk.rng
-    n_designs = 96 if quick else 640
+    n_designs = 96 if quick else 480
     hashseeds = [0] + sorted(rng.sample(range(1, 100000), 5 if quick else 47))
-    chunk = 6 if quick else 20
+    chunk = 6 if quick else 24
     n_frag = 600 if quick else 12000
     n_sim = 160 if quick else 3000
     n_poke = 150 if quick else 3000
@@ -1834,3 +1876,40 @@ def run(chk):
     ]
     chk.extra["trusted_base"] = ["CPython's str ordering = Lean's String order (code points; stream `sort`)",
                                  "os / pathlib / zipfile as used by BuildPlan.extract and archive (differentially tested)"]
+
+
+def replay(chk, path):
+    """./check C09 --replay replays/C09-….json : run one stored case again on the current tree"""
+    rep = json.load(open(path))["replay"]
+    stream = rep.get("stream")
+    if stream == "diff":
+        s, ha, hb = rep["design_seed"], rep["hashseed_a"], rep["hashseed_b"]
+        ta = run_child(ha, [s], mode="text")["results"][0]["text"]
+        tb = run_child(hb, [s], mode="text")["results"][0]["text"]
+        texts = {ta[0], ta[1], tb[0], tb[1]}
+        if len(texts) == 1:
+            print(f"replay: design seed {s}: one text under PYTHONHASHSEED={ha} and {hb} (twice each) - not reproduced")
+            return common.EXIT_OK
+        x, y = (ta[0], tb[0]) if ta[0] != tb[0] else (ta[0], ta[1]) if ta[0] != ta[1] else (tb[0], tb[1])
+        line, xa, xb, classes = classify_text_diff(rep.get("meta", {}), x, y)
+        print(f"VIOLATION property=C09 replay={path}")
+        print(f"  design seed {s}: {len(texts)} distinct texts; first difference at line {line}: {xa.strip()!r} / {xb.strip()!r} "
+              f"classes={classes}")
+        return common.EXIT_VIOLATION
+    if stream in ("sim", "sim-witness"):
+        chk.driver = common.Driver(EXE)
+        r = sim_case_real(rep["case"], limit_s=60)
+        m = json.loads(chk.driver.ask([f"(reset {ser_state(r['s1'])})" if "error" not in r else "(reset none)"])[0])
+        v = judge_sim(chk, r, m, stream)
+        flush_reports(chk)
+        for summary, replay_obj in chk.violations:
+            print(f"VIOLATION property=C09 replay={path}")
+            print(f"  {summary} classes={replay_obj.get('classes')}")
+        for what, _d in chk.unshown:
+            print(f"VIOLATION property=C09 replay={path} no-failing-input-found\n  {what}")
+        if not chk.violations and not chk.unshown:
+            print(f"replay: scenario verdict {v} - not reproduced")
+            return common.EXIT_OK
+        return common.EXIT_VIOLATION
+    print(f"replay of stream {stream!r} is not supported; the replay file contains the complete input")
+    return common.EXIT_INFRA
